@@ -644,6 +644,11 @@ func Run(sc *Scenario) *Result {
 				}
 			case <-time.After(killTO*2 + 1500*time.Millisecond):
 			}
+			if !returned && round < 2 && (fakecmd.Alive() > 0 || d.inflight.Load() > 0) {
+				// an API call made around the shutdown started something new: not a hang, shut down again
+				waitOps(killTO + 1500*time.Millisecond)
+				continue
+			}
 			if !returned {
 				if stuck == "" {
 					stuck = "after_shutdown"
